@@ -5,6 +5,7 @@ use vstd::prelude::*;
 use vstd::std_specs::ops::*;
 use vstd::std_specs::cmp::{PartialOrdSpec, PartialEqSpec};
 verus! {
+//@include specs/std_extra.rs
 #[derive(Debug)]
 pub struct AnyhowError;
 #[verifier::external_body]
